@@ -27,6 +27,8 @@ structure WFM (s : IState) : Prop extends WF s where
   inputLen : s.input.length ≤ Memory.ISIZE_MAX
   returnLen : s.returnData.length ≤ Memory.ISIZE_MAX
   codeLen : s.code.length ≤ Memory.ISIZE_MAX
+  /-- the refund counter is far from the ends of `i64` (one instruction moves it by at most 24000) -/
+  refund : -(2^62 : Int) ≤ s.gas.refunded ∧ s.gas.refunded ≤ 2^62
 
 theorem GAS_BOUND_val : GAS_BOUND = 576460752303423488 := by unfold GAS_BOUND; rfl
 
